@@ -226,6 +226,30 @@ impl Pair {
     }
 }
 
+/// Which node gives up its own pending dial when both dial at once?  Both nodes dial, each is handed the other's
+/// request; prints `{"yielder": n}` (n = the node that answered Allow, 0 if not exactly one did).
+pub fn probe(w: Arc<World>) {
+    let rt = tokio::runtime::Builder::new_multi_thread().worker_threads(2).enable_all().build().unwrap();
+    let y = rt.block_on(async {
+        let Ok(mut pair) = Pair::new(&w, &[1, 2]).await else { return 0 };
+        let ns = pair.ns;
+        let ids = [pair.nodes[0].id, pair.nodes[1].id];
+        for n in 0..2 {
+            pair.nodes[n].actor.verif_dial(ns, ids[1 - n], SyncReason::NewNeighbor);
+            let _ = pair.nodes[n].actor.verif_take_dials();
+        }
+        let mut allow = vec![];
+        for n in 0..2 {
+            if matches!(pair.nodes[n].actor.accept_sync_request(ns, ids[1 - n]), AcceptOutcome::Allow) {
+                allow.push(n + 1);
+            }
+        }
+        pair.shutdown().await;
+        if allow.len() == 1 { allow[0] } else { 0 }
+    });
+    println!("{{\"yielder\": {y}}}");
+}
+
 pub fn run(w: Arc<World>, seed: u64, schedules: Vec<Value>, trace: &mut Trace, sum: &mut Summary) {
     let rt = tokio::runtime::Builder::new_multi_thread().worker_threads(2).enable_all().build().unwrap();
     // one pair of real nodes serves all schedules; the coordination state is reset between schedules
